@@ -107,6 +107,11 @@ func (w *Walker) Walk(
 	w.allCancel = cancelFunc
 
 	// populate info map
+	// NOTE: All nodes are registered before any routine is started. A routine that completes
+	// looks up its dependants in nodeInfoMap: if a dependant were not registered yet its ready
+	// message would be lost (and Walk would wait forever), and the map would be written while
+	// other goroutines read it.
+	var selectedNodes []model.BuildNode
 	for _, node := range w.graph.nodes {
 		if !node.GetIsSelected() {
 			// skip unselected targets
@@ -122,8 +127,11 @@ func (w *Walker) Walk(
 			ready:  readyCh,
 			cancel: cancelCh,
 		}
+		selectedNodes = append(selectedNodes, node)
+	}
 
-		w.wait.Add(1)
+	w.wait.Add(len(selectedNodes))
+	for _, node := range selectedNodes {
 		// start all routines
 		go w.nodeRoutine(ctx, node, w.nodeInfoMap[node.GetLabel()])
 
